@@ -73,6 +73,13 @@ func handSpecs() []*Spec {
 			TypeSpec{Kind: "object", Name: "Widget", Ifaces: []string{"Thing"}, Fields: []FieldSpec{{Name: "id", Type: "ID"}, {Name: "legacy", Type: "Mode", Req: []string{"a"}, Deprecated: true}, {Name: "old", Type: "Int", Deprecated: true}, {Name: "gated", Type: "Int", Req: []string{"a"}}}},
 			TypeSpec{Kind: "object", Name: "Query", Fields: []FieldSpec{{Name: "thing", Type: "Thing"}, {Name: "open", Type: "Open"}, {Name: "mode", Type: "Mode", Req: []string{"a"}, Deprecated: true}}},
 		)},
+		// custom directives: ungated argument types (inside the domain) and an argument of a gated enum type (F-13g)
+		{Query: "Query", Directives: []DirSpec{{Name: "tag", Args: []ArgSpec{{"label", "String"}, {"n", "Int!"}}}, {Name: "mark"}},
+			Types: withBuiltins(TypeSpec{Kind: "object", Name: "Query", Fields: []FieldSpec{{Name: "ok", Type: "Boolean"}, {Name: "n", Type: "Int", Req: []string{"a"}}}})},
+		{Query: "Query", Directives: []DirSpec{{Name: "paint", Args: []ArgSpec{{"mode", "Mode"}, {"n", "Int"}}}},
+			Types: withBuiltins(
+				TypeSpec{Kind: "enum", Name: "Mode", Req: []string{"a"}, Values: []string{"X", "Y"}},
+				TypeSpec{Kind: "object", Name: "Query", Fields: []FieldSpec{{Name: "ok", Type: "Boolean"}}})},
 		// connections with features
 		{Query: "Query", Types: append(withBuiltins(
 			TypeSpec{Kind: "object", Name: "Item", Fields: []FieldSpec{{Name: "n", Type: "Int"}}},
